@@ -80,6 +80,19 @@ def main(argv=None):
                 run.functions[q]["error"] = r.error
             obls = [o for o in r.obligations if o.prop in ("", prop, "DBG") or o.kind in ("cover", "canary")]
             run.add_obligations(obls)
+        # assumed contracts / engine models of eyecite functions are valid for the reviewed source text only
+        try:
+            pins = json.load(open(os.path.join(report.VERIF, "contracts", "ASSUMED_PINS.json")))["pins"]
+        except Exception:
+            pins = {}
+        for q in entry.get("pins", []):
+            fi = repo.funcs.get(q)
+            cur = fi.sha256 if fi else None
+            if cur != pins.get(q):
+                errors.append((q, "assumed-contract-source-changed: the source of this function differs from the text its assumed contract was "
+                                  f"reviewed for (pinned {str(pins.get(q))[:12]}, now {str(cur)[:12]}); the assumption is re-opened"))
+            else:
+                run.trust(f"pinned source of assumed function {q} (sha256 {cur[:12]})")
         for fn in entry.get("extra", []):
             run.add_obligations(fn(e, run, args.tier))
         from pyvc.verify import lemma_obligations
